@@ -239,7 +239,7 @@ def main(argv):
             per, nbin = int(30000 * a.scale), int(60000 * a.scale)
         else:
             cfgs = (a.configs.split(",") if a.configs else ALL_CONFIGS)
-            per, nbin = int(600000 * a.scale), int(1200000 * a.scale)
+            per, nbin = int(2400000 * a.scale), int(4800000 * a.scale)
         exes = build_many(cfgs)
         m = run_sharded("c05", "gen", (names, per // NCPU + 1, nbin // NCPU + 1), [(c, exes[c]) for c in cfgs], a.seed)
         rep.merge(m)
